@@ -3,12 +3,11 @@ CONSTANTS
   Repo = {1, 2}
   Persistent = {2}
   Capacity = 1
-  QueueMax = 2
-  MaxTasks = 3
-  MaxOps = 9
+  QueueMax = 128
+  MaxTasks = 100000
+  MaxOps = 100000
   SyncTask = TRUE
   Dev = {"late-same-peer"}
-INIT Init
-NEXT Next
-VIEW view
-INVARIANTS C16_Attribution
+INIT TInit
+NEXT TNext
+POSTCONDITION Accepted
